@@ -479,6 +479,9 @@ func (c *Ctx) PANICNIL(rule string, entry ...string) []report.Obligation {
 					continue
 				}
 				// optional scalars (*int, *bool, *string ...) are followed with a plain load
+				if internalField(base) {
+					continue // a private field of a private helper struct is set where the struct is built: not an optional part of the model or of the API
+				}
 				n++
 				guarded := stored[key] || factHolds(b, func(cond ssa.Value, val bool) bool {
 					bo, ok := cond.(*ssa.BinOp)
@@ -505,4 +508,29 @@ func (c *Ctx) PANICNIL(rule string, entry ...string) []report.Obligation {
 	}
 	c.Stats[rule+".sites"] = n
 	return out
+}
+
+// internalField: v is loaded from an unexported field of an unexported struct type.
+func internalField(v ssa.Value) bool {
+	ld, ok := v.(*ssa.UnOp)
+	if !ok {
+		return false
+	}
+	fa, ok := ld.X.(*ssa.FieldAddr)
+	if !ok {
+		return false
+	}
+	pt, ok := fa.X.Type().Underlying().(*types.Pointer)
+	if !ok {
+		return false
+	}
+	named, ok := pt.Elem().(*types.Named)
+	if !ok {
+		return false
+	}
+	st, ok := named.Underlying().(*types.Struct)
+	if !ok {
+		return false
+	}
+	return !named.Obj().Exported() && !st.Field(fa.Field).Exported()
 }
